@@ -124,8 +124,23 @@ def receive_once(cf, fields, data, M, pc_id, groups, reception, ts_name, frag_so
         if reception == 'memory':
             store, cb = frozenset(), None
         elif reception == 'tempfile':
-            ae = applicationentity.ClientAE('VERIF')
-            store, cb = frozenset([sop_class]), ae.get_file
+            # which classes go to a file is what the entity's public configuration says, whatever the order of the
+            # calls that mention the class
+            from .. import fakedul as fd
+            from .c17 import alias
+            from pynetdicom2 import sopclass
+            ae = fd.make_ae('VERIF')
+            order = (M + pc_id) % 4
+            if order == 1:
+                ae.add_scu(sopclass.storage_scu, [sop_class])
+            if order == 3:
+                ae.update_context_def_list([sop_class])
+                ae.update_context_def_list([sop_class], store_in_file=True)
+            else:
+                ae.add_scp(alias(sopclass.storage_scp, [sop_class]))
+            if order == 2:
+                ae.add_scu(sopclass.storage_scu, [sop_class])
+            store, cb = ae.store_in_file, ae.get_file
         else:
             tmpdir = tempfile.mkdtemp(prefix='vf_c07_')
             ae = pynetdicom2.ClientStorageAE(tmpdir, 'VERIF')
